@@ -345,6 +345,31 @@ func lenEquiv(a, b ssa.Value) bool {
 	if a == b {
 		return true
 	}
+	// the first result of a library function that answers, whenever it succeeds, with make(T, len(p)) filled in
+	// place: as long as the argument handed in for p
+	for _, pr := range [][2]ssa.Value{{a, b}, {b, a}} {
+		if ex, ok := pr[0].(*ssa.Extract); ok && ex.Index == 0 {
+			if call, ok := ex.Tuple.(*ssa.Call); ok {
+				if k := sameLengthAsParam(call.Common().StaticCallee()); k >= 0 && k < len(call.Common().Args) && lenEquivDepth < 2 {
+					lenEquivDepth++
+					eq := lenEquiv(call.Common().Args[k], pr[1])
+					lenEquivDepth--
+					if eq {
+						return true
+					}
+				}
+			}
+		}
+	}
+	// a list grown by exactly one append per iteration of a range loop over the other slice, looked at after the
+	// loop ran to completion
+	if lenEquivSite != nil {
+		for _, pr := range [][2]ssa.Value{{a, b}, {b, a}} {
+			if appendedOncePerElement(pr[0], pr[1], lenEquivSite) {
+				return true
+			}
+		}
+	}
 	if mk, ok := a.(*ssa.MakeSlice); ok && isLenCallOfEquiv(mk.Len, b) {
 		return true
 	}
@@ -385,6 +410,8 @@ func isLenCallOfEquiv(v, of ssa.Value) bool {
 
 // indexSafe discharges x[idx] by structural idioms.
 func (c *Ctx) indexSafe(x, idx ssa.Value, b *ssa.BasicBlock) (bool, string) {
+	lenEquivSite = b
+	defer func() { lenEquivSite = nil }()
 	// pointer to array: constant index within the array length
 	if pt, ok := x.Type().Underlying().(*types.Pointer); ok {
 		if arr, ok := pt.Elem().Underlying().(*types.Array); ok {
@@ -1082,4 +1109,186 @@ func (c *Ctx) rawReaderRole(g *ssa.Function) (onnxType, bool) {
 		}
 	}
 	return onnxType{}, false
+}
+
+var lenEquivDepth int
+
+// sameLengthAsParam: f returns (slice, error) and every return with a nil error hands out one make([]T, len(p)) of
+// the same parameter p that is only written by element (never re-sliced or appended to); the index of p, else -1.
+func sameLengthAsParam(f *ssa.Function) int {
+	if f == nil || !isLibFn(f) || len(f.Blocks) == 0 || f.Signature.Results().Len() != 2 {
+		return -1
+	}
+	k := -1
+	for _, r := range returnsOf(f) {
+		if len(r.Results) != 2 {
+			return -1
+		}
+		if !isNilConst(r.Results[1]) {
+			continue // an error return
+		}
+		mk, ok := r.Results[0].(*ssa.MakeSlice)
+		if !ok {
+			return -1
+		}
+		lc, ok := mk.Len.(*ssa.Call)
+		if !ok {
+			return -1
+		}
+		bi, ok := lc.Common().Value.(*ssa.Builtin)
+		if !ok || bi.Name() != "len" {
+			return -1
+		}
+		p, ok := lc.Common().Args[0].(*ssa.Parameter)
+		if !ok {
+			return -1
+		}
+		idx := -1
+		for i, fp := range f.Params {
+			if fp == p {
+				idx = i
+			}
+		}
+		if idx < 0 || (k >= 0 && k != idx) {
+			return -1
+		}
+		k = idx
+		// the parameter is not reassigned (SSA parameters never are) and the made slice only has element stores
+		for _, ref := range *mk.Referrers() {
+			switch ref.(type) {
+			case *ssa.IndexAddr, *ssa.Return, *ssa.DebugRef:
+			default:
+				return -1
+			}
+		}
+	}
+	return k
+}
+
+var lenEquivSite *ssa.BasicBlock
+
+// appendedOncePerElement: grown is phi(make(T, 0, ..) | append(grown, one element)) at the header of a loop
+// `for i := 0; i < len(over); i++` (a range loop), the append lies on every path back to the header, and the site is
+// outside the loop and dominated by its header (the loop ran to completion, every other exit returns).
+func appendedOncePerElement(grown, over ssa.Value, site *ssa.BasicBlock) bool {
+	phi, ok := grown.(*ssa.Phi)
+	if !ok || len(phi.Edges) != 2 {
+		return false
+	}
+	h := phi.Block()
+	lb := loopBlocks(h)
+	if len(lb) < 2 || lb[site] || !h.Dominates(site) {
+		return false
+	}
+	var start ssa.Value
+	var app *ssa.Call
+	for i, e := range phi.Edges {
+		if lb[h.Preds[i]] {
+			if c, ok := e.(*ssa.Call); ok {
+				if bi, ok := c.Common().Value.(*ssa.Builtin); ok && bi.Name() == "append" && c.Common().Args[0] == ssa.Value(phi) {
+					app = c
+				}
+			}
+		} else {
+			start = e
+		}
+	}
+	if app == nil || start == nil {
+		return false
+	}
+	mk, ok := start.(*ssa.MakeSlice)
+	if !ok {
+		return false
+	}
+	if k, ok := constInt(mk.Len); !ok || k != 0 {
+		return false
+	}
+	// one element appended
+	if sl, ok := app.Common().Args[1].(*ssa.Slice); !ok || len(varargElems(sl)) != 1 {
+		return false
+	}
+	// the append dominates every back edge
+	for i, p := range h.Preds {
+		if lb[p] && !app.Block().Dominates(p) {
+			return false
+		}
+		_ = i
+	}
+	// the header tests i < len(over) with i = phi(0 | i+1)
+	iff, ok := h.Instrs[len(h.Instrs)-1].(*ssa.If)
+	if !ok {
+		return false
+	}
+	bo, ok := iff.Cond.(*ssa.BinOp)
+	if !ok || bo.Op != token.LSS {
+		return false
+	}
+	lc, ok := bo.Y.(*ssa.Call)
+	if !ok {
+		return false
+	}
+	if bi, ok := lc.Common().Value.(*ssa.Builtin); !ok || bi.Name() != "len" {
+		return false
+	}
+	saved := lenEquivSite
+	lenEquivSite = nil
+	same := lenEquiv(lc.Common().Args[0], over)
+	lenEquivSite = saved
+	if !same {
+		return false
+	}
+	ip, ok := bo.X.(*ssa.Phi)
+	rotated := false
+	if !ok {
+		// the rotated range form: i = phi(-1 | i+1), tested as i+1 < len
+		if inc, ok := bo.X.(*ssa.BinOp); ok && inc.Op == token.ADD {
+			if one, isK := constInt(inc.Y); isK && one == 1 {
+				ip, _ = inc.X.(*ssa.Phi)
+				rotated = true
+			}
+		}
+	}
+	if ip == nil || ip.Block() != h {
+		return false
+	}
+	if rotated {
+		okStart := false
+		for i, e := range ip.Edges {
+			if !lb[h.Preds[i]] {
+				if k, isK := constInt(e); isK && k == -1 {
+					okStart = true
+				}
+			}
+		}
+		if !okStart {
+			return false
+		}
+	} else if !startsNonNegative(ip) {
+		return false
+	}
+	// every other way out of the loop ends in a return (an error): the site is only reached after completion
+	for x := range lb {
+		for _, s := range x.Succs {
+			if lb[s] || x == h {
+				continue
+			}
+			if !endsInReturn(s, 0) {
+				return false
+			}
+		}
+	}
+	return true
+}
+
+func endsInReturn(b *ssa.BasicBlock, d int) bool {
+	if d > 4 || len(b.Instrs) == 0 {
+		return false
+	}
+	switch b.Instrs[len(b.Instrs)-1].(type) {
+	case *ssa.Return, *ssa.Panic:
+		return true
+	case *ssa.Jump:
+		return endsInReturn(b.Succs[0], d+1)
+	}
+	return false
 }
